@@ -286,11 +286,7 @@ func (e *Env) Monitor(prev, o *Obs, l Label, r *stepResult, staleSpec []int, spe
 		}
 	}
 	if len(offenders) > 0 {
-		if specKnown && eqInts(offenders, staleSpec) && (l.Name == "Reorg" || len(staleSpec) > 0) {
-			add("inputs-available:stale-after-disconnect", "after %s pooled transaction(s) %v spend outputs that exist neither in the chain nor in the pool", l.Raw, offenders)
-		} else {
-			add("inputs-available", "after %s pooled transaction(s) %v spend outputs that exist neither in the chain nor in the pool (spec predicts %v)", l.Raw, offenders, staleSpec)
-		}
+		add("inputs-available", "after %s pooled transaction(s) %v spend outputs that exist neither in the chain nor in the pool (spec predicts %v)", l.Raw, offenders, staleSpec)
 	}
 	// OrphanBounds
 	maxO := u.MaxOrphans
